@@ -517,6 +517,11 @@ class Gen:
             for _ in range(r.choice([0, 1, 2, 3, 3, r.randint(4, 9)])):
                 for _ in range(50):
                     mn = r.choice(METHOD_NAMES)
+                    if methods and r.random() < 0.4:
+                        # a name that extends or truncates one already taken, declared in either order
+                        base = r.choice(methods)[0]
+                        mn = r.choice([base + 's', base + 'All', base + 'X1', base[:-1] if len(base) > 1 else base + 'y',
+                                       base[:max(1, len(base) // 2)]])
                     if key(mn) not in used and camel_lower(mn) not in DENY_METHOD_KEYS:
                         break
                 else:
